@@ -7,7 +7,7 @@
             returned port, recorded only when no error was returned), list (identities of the returned listing), drv
             (identity of what Get returned), closed (instances whose Close ran), dlv (id of the ListenTo listener that was
             called), nrec (Stop: messages the listener / the recorded track / the written file holds), sent (byte strings the
-            fake out port accepted), str (InPorts.String / OutPorts.String), pan (panic text), timeout (10 s watchdog), and
+            fake out port accepted), str (InPorts.String / OutPorts.String), pan (panic text), timeout (30 s watchdog), and
             after the call: open (ports with IsOpen), lis (in ports with a listener installed), first (identity of Get()).
    The sequence is folded through Registry!RgOutcomes: a step is accepted iff it returned (no panic, no hang) and one of
    the outcomes the specification allows explains result and observable state.
